@@ -201,14 +201,19 @@ def check_family(tier, shard, nshards):
                 except Exception as e:  # noqa: BLE001
                     fails.append((dict(circuit=label, display_type=dt, n_labels=k, needed=m), f"raised {type(e).__name__} instead of DisplayError"))
                 plt.close("all")
-        n += 1
-        try:
-            Display(c, display_type="png")
-            fails.append((dict(circuit=label), "unknown display type accepted"))
-        except DisplayError:
-            pass
-        except Exception as e:  # noqa: BLE001
-            fails.append((dict(circuit=label), f"unknown display type raised {type(e).__name__}"))
+        # unknown display types of every kind a caller may pass (other strings, the empty string, None, numbers, a tuple, bytes): DisplayError, through
+        # Display() and through Circuit.display()
+        for bad in ("png", "", "not_valid", None, 0, 1.5, True, ("svg",), b"svg"):
+            for how in ("Display", "Circuit.display"):
+                n += 1
+                try:
+                    Display(c, display_type=bad) if how == "Display" else c.display(display_type=bad)
+                    fails.append((dict(circuit=label, display_type=repr(bad), via=how), "unknown display type accepted"))
+                except DisplayError:
+                    pass
+                except Exception as e:  # noqa: BLE001
+                    fails.append((dict(circuit=label, display_type=repr(bad), via=how), f"unknown display type raised {type(e).__name__} instead of DisplayError"))
+                plt.close("all")
         if snapshot(c) != before:
             fails.append((dict(circuit=label), "a rejected display call changed the circuit"))
     return n, fails, len(fam)
